@@ -17,7 +17,11 @@ ASSUMPTIONS = ["statements are identified by their normalised feaLib text", "com
 
 
 def design_checks(tier):
-    return [dict(module="FeaMC", cfg="FeaMC.cfg", workers=8, timeout=600)]
+    # WritersList: a caller-owned featureWriters list with the "..." placeholder serving several fonts -- holds when every
+    # font gets a fresh list, the in-place expansion (seeded change C17-h) must fail
+    return [dict(module="FeaMC", cfg="FeaMC.cfg", workers=8, timeout=600),
+            dict(module="WritersList", cfg="WritersList.cfg", workers=1, timeout=60),
+            dict(module="WritersList", cfg="WritersList_inplace.cfg", workers=1, timeout=60, expect_violation="OwnWriters")]
 
 
 RULES = {
